@@ -1836,6 +1836,7 @@ def _indent_lns(
     skip: int = 1,
     docstr: bool | Literal['strict'] = True,
     docstr_strict_exclude: AST | None = None,
+    after: str = '',
 ) -> None:
     """Indent all indentable lines specified in `lns` with `indent` and adjust node locations accordingly.
 
@@ -1851,6 +1852,9 @@ def _indent_lns(
         in standard docstring locations are indentable.
     - `docstr_strict_exclude`: Special parameter for excluding non-first elements from `'strict'` `docstr` check even if
         they come first in a slice. Should be the `Expr` of the docstr if excluding.
+    - `after`: Existing indentation of the lines, `indent` is inserted after this where a line starts with it instead of
+        at the start of the line. For indenting lines in place, otherwise if `after` is tabs and `indent` spaces (or
+        other way around) the two get swapped with respect to any header line above the lines being indented.
     """
 
     if indent == '':
@@ -1870,9 +1874,11 @@ def _indent_lns(
     lines = root._lines
     dont_offset = set()
 
+    len_after = len(after)
+
     for ln in lns:
         if l := lines[ln]:  # only indent non-empty lines
-            lines[ln] = bistr(indent + l)
+            lines[ln] = bistr(after + indent + l[len_after:] if l.startswith(after) else indent + l)
         else:
             dont_offset.add(ln)
 
